@@ -41,17 +41,23 @@ def robustMembers : List TyExpr → Bool
   | e :: es => robust e && !isUnionOrOpt e && robustMembers es
 end
 
-/-- the named exclusion of finding D18 (and of lists of containers): wherever `get_argparse_type_for_container` is
-    applied — a top-level list or an optional list — the item type is an atom -/
-def ListItemsAtomic : TyExpr → Bool
-  | .list x => isAtom x
-  | .opt (.list x) => isAtom x
+/-- what a list item may be on the command line: an atom or a union / optional (converted member by member).  A list
+    whose items are themselves containers is not a command-line type: `List[List[int]]` hands argparse a `typing` alias
+    that cannot be called, `list[list[int]]` a builtin alias that splits the token into characters — neither spelling
+    yields a usable option, and they are the one place left where the spelling shows (see `c17_grammar_boundary`). -/
+def itemOk (x : TyExpr) : Bool := isAtom x || isUnionOrOpt x
+
+/-- the named restriction of the grammar: wherever `get_argparse_type_for_container` is applied — a top-level list or
+    an optional list — the item is not itself a container -/
+def ListItemsNotContainers : TyExpr → Bool
+  | .list x => itemOk x
+  | .opt (.list x) => itemOk x
   | _ => true
 
 /-- field types of the command-line grammar -/
 def InCliGrammar : TyExpr → Bool
   | .dc _ => true
-  | e => robust e && ListItemsAtomic e
+  | e => robust e && ListItemsNotContainers e
 
 /-! ### representation-independent facts -/
 
@@ -197,6 +203,26 @@ theorem kind_union_plain (xs xs' : List Ann) (d : Dflt) (h1 : xs.any isNoneType 
   have p2 : parsingFn (.typing .union xs') = .tryFns (parsingFnL xs') := by simp [parsingFn, h2]
   cases d <;> simp [kind, isDataclass, o1, o2, p1, p2, hp, isUnion, isTuple, isList, mro, required0]
 
+theorem denote_unionish (l : Live) (x : TyExpr) (h : isUnionOrOpt x = true) : ∃ ys, denoteLive l x = mkUnion l ys := by
+  cases x with
+  | union es => exact ⟨_, by simp only [denoteLive]; rfl⟩
+  | opt e => cases e <;> exact ⟨_, by simp only [denoteLive]; rfl⟩
+  | _ => simp [isUnionOrOpt] at h
+
+/-- a list of unions: the item conversion is `get_parsing_fn` of the union, whichever way list and union are written -/
+theorem ctf_list_union (l m : Live) (ys : List Ann) :
+    containerTypeFn (mkList l (mkUnion m ys)) = parsingFn (mkUnion m ys) := by
+  cases l <;> cases m <;> simp [mkList, mkUnion, containerTypeFn, getArgs, isUnion]
+
+theorem kind_list_union (l l' m m' : Live) (ys ys' : List Ann) (d : Dflt)
+    (hp : parsingFn (mkUnion m ys) = parsingFn (mkUnion m' ys')) :
+    kind (mkList l (mkUnion m ys)) d = kind (mkList l' (mkUnion m' ys')) d := by
+  have c1 := ctf_list_union l m ys
+  have c2 := ctf_list_union l' m' ys'
+  cases l <;> cases l' <;> cases d <;>
+    simp [kind, mkList, isDataclass, isOptional, isUnion, isEnum, isList, isTuple, mro, required0, getArgs] at c1 c2 ⊢ <;>
+    simp [mkList, c1, c2, hp]
+
 /-- an `Optional[w]` field: the branch is chosen on the wrapped type `w` -/
 theorem kind_opt_single (w : Ann) (d : Dflt) (hn : isNoneType w = false) :
     kind (.typing .union [w, .cls .none]) d =
@@ -216,26 +242,32 @@ theorem c17_live_invariant (l l' : Live) (d : Dflt) : ∀ e : TyExpr, InCliGramm
   | .atom a, _ => by simp [denoteLive]
   | .dc n, _ => by simp [denoteLive]
   | .list x, h => by
-    simp [InCliGrammar, ListItemsAtomic] at h
+    simp [InCliGrammar, ListItemsNotContainers, robust, itemOk] at h
     simp only [denoteLive]
-    rw [denote_atom l l' x h.2]
-    exact kind_mkList l l' _ d
+    rcases h.2 with ha | hu
+    · rw [denote_atom l l' x ha]
+      exact kind_mkList l l' _ d
+    · obtain ⟨ys, e1⟩ := denote_unionish l x hu
+      obtain ⟨ys', e2⟩ := denote_unionish l' x hu
+      have hp := parsingFn_style l l' x h.1
+      rw [e1, e2] at hp ⊢
+      exact kind_list_union l l' l l' ys ys' d hp
   | .tuple es, h => by
-    simp [InCliGrammar, robust, ListItemsAtomic] at h
+    simp [InCliGrammar, robust, ListItemsNotContainers] at h
     simp only [denoteLive, denoteL_atoms l l' es h]
     exact kind_mkTuple l l' _ d
   | .vtuple x, h => by
-    simp [InCliGrammar, robust, ListItemsAtomic] at h
+    simp [InCliGrammar, robust, ListItemsNotContainers] at h
     simp only [denoteLive]
     exact kind_vtuple l l' _ _ d (parsingFn_style l l' x h)
   | .union es, h => by
-    simp [InCliGrammar, robust, ListItemsAtomic] at h
+    simp [InCliGrammar, robust, ListItemsNotContainers] at h
     simp only [denoteLive]
     rw [kind_mkUnion l .typing, kind_mkUnion l' .typing]
     simp only [mkUnion]
     exact kind_union_plain _ _ d (any_none_denoteL l es) (any_none_denoteL l' es) (parsingFnL_style l l' es h)
   | .opt (.union es), h => by
-    simp [InCliGrammar, robust, ListItemsAtomic] at h
+    simp [InCliGrammar, robust, ListItemsNotContainers] at h
     simp only [denoteLive, denoteL_atoms l l' es h]
     exact kind_mkUnion l l' _ d
   | .opt (.atom a), _ => by
@@ -244,15 +276,26 @@ theorem c17_live_invariant (l l' : Live) (d : Dflt) : ∀ e : TyExpr, InCliGramm
   | .opt (.dc n), h => by simp [InCliGrammar, robust] at h
   | .opt (.opt e), h => by simp [InCliGrammar, robust, isUnionOrOpt] at h
   | .opt (.list x), h => by
-    simp [InCliGrammar, robust, ListItemsAtomic, isUnionOrOpt] at h
+    simp [InCliGrammar, robust, ListItemsNotContainers, isUnionOrOpt, itemOk] at h
     simp only [denoteLive]
-    rw [kind_mkUnion l .typing, kind_mkUnion l' .typing, denote_atom l l' x h.2]
+    rw [kind_mkUnion l .typing, kind_mkUnion l' .typing]
     simp only [mkUnion]
     rw [kind_opt_single _ d (by cases l <;> simp [mkList, isNoneType]),
         kind_opt_single _ d (by cases l' <;> simp [mkList, isNoneType])]
-    cases l <;> cases l' <;> simp [mkList, isTuple, isList, mro, containerTypeFn, getArgs]
+    rcases h.2 with ha | hu
+    · rw [denote_atom l l' x ha]
+      cases l <;> cases l' <;> simp [mkList, isTuple, isList, mro, containerTypeFn, getArgs]
+    · obtain ⟨ys, e1⟩ := denote_unionish l x hu
+      obtain ⟨ys', e2⟩ := denote_unionish l' x hu
+      have hp := parsingFn_style l l' x h.1
+      rw [e1, e2] at hp ⊢
+      have t1 : isTuple (mkList l (mkUnion l ys)) = false := by cases l <;> simp [mkList, isTuple, mro]
+      have t2 : isTuple (mkList l' (mkUnion l' ys')) = false := by cases l' <;> simp [mkList, isTuple, mro]
+      have l1 : isList (mkList l (mkUnion l ys)) = true := by cases l <;> simp [mkList, isList, mro]
+      have l2 : isList (mkList l' (mkUnion l' ys')) = true := by cases l' <;> simp [mkList, isList, mro]
+      simp [t1, t2, l1, l2, ctf_list_union, hp]
   | .opt (.tuple es), h => by
-    simp [InCliGrammar, robust, ListItemsAtomic, isUnionOrOpt] at h
+    simp [InCliGrammar, robust, ListItemsNotContainers, isUnionOrOpt] at h
     simp only [denoteLive, denoteL_atoms l l' es h]
     rw [kind_mkUnion l .typing, kind_mkUnion l' .typing]
     simp only [mkUnion]
@@ -260,7 +303,7 @@ theorem c17_live_invariant (l l' : Live) (d : Dflt) : ∀ e : TyExpr, InCliGramm
         kind_opt_single _ d (by cases l' <;> simp [mkTuple, isNoneType])]
     cases l <;> cases l' <;> simp [mkTuple, isTuple, mro, containerNargs, getArgs, parsingFn]
   | .opt (.vtuple x), h => by
-    simp [InCliGrammar, robust, ListItemsAtomic, isUnionOrOpt] at h
+    simp [InCliGrammar, robust, ListItemsNotContainers, isUnionOrOpt] at h
     have hp := parsingFn_style l l' x h
     simp only [denoteLive]
     rw [kind_mkUnion l .typing, kind_mkUnion l' .typing]
@@ -324,153 +367,287 @@ theorem replaceL_atoms (l : Live) : ∀ es : List TyExpr, allAtoms es = true →
     simp [denoteLiveL, denoteLive, replaceUnionL, replaceUnion, replaceL_atoms l es h]
     rfl
 
-/-- optionals whose postponed PEP 604 text `X | None` is normalised to exactly the builtin-style object -/
-def SimpleOptional : TyExpr → Bool
-  | .opt (.atom _) => true
-  | .opt (.list x) => isAtom x
-  | .opt (.tuple es) => allAtoms es
+/-! #### `_replace_UnionType_with_typing_Union` turns the PEP 604 object into the builtin-style object -/
+
+def isTypingUnion : Ann → Bool
+  | .typing .union _ => true
   | _ => false
 
-theorem resolve_postponed_604_optional (ev : Str → EvOut) (e : TyExpr) (hs : SimpleOptional e = true)
-    (hev : ev (render .pep604 e) = .ok (denoteLive .pep604 e)) :
-    resolve ev (denote (.postponed .pep604) e) = .ok (denoteLive .builtin e) := by
-  simp only [denote, resolve, hev]
-  match e, hs with
-  | .opt (.atom a), _ =>
-    cases a <;> simp [denoteLive, mkUnion, replaceUnion, replaceUnionL, atomCls, mkTypingUnion, flattenUnion, dedupAnn,
-      annEq, bind, Except.bind, pure, Except.pure]
-  | .opt (.list x), h =>
-    simp [SimpleOptional] at h
-    cases x <;> simp [isAtom] at h
-    simp [denoteLive, mkUnion, mkList, replaceUnion, replaceUnionL, mkTypingUnion, flattenUnion, dedupAnn,
-      annEq, bind, Except.bind, pure, Except.pure]
-  | .opt (.tuple es), h =>
-    simp [SimpleOptional] at h
-    simp [denoteLive, mkUnion, mkTuple, replaceUnion, replaceUnionL, replaceL_atoms .pep604 es h, mkTypingUnion,
-      flattenUnion, dedupAnn, annEq, bind, Except.bind, pure, Except.pure, denoteL_atoms .builtin .pep604 es h]
+/-- pairwise different under Python `==` -/
+def distinctL : List Ann → Bool
+  | [] => true
+  | x :: r => r.all (fun y => !annEq x y) && distinctL r
+
+mutual
+/-- CPython's own normal form of a type expression: a union has at least two members and they are pairwise different
+    (`Union[int]` *is* `int`, `int | int` *is* `int`) — a condition on the expression, not on the code -/
+def normal : TyExpr → Bool
+  | .atom _ => true
+  | .dc _ => true
+  | .list e => normal e
+  | .tuple es => normalL es
+  | .vtuple e => normal e
+  | .opt (.union es) => normalL es && distinctL (denoteLiveL .builtin es) && decide (2 ≤ es.length)
+  | .opt e => normal e
+  | .union es => normalL es && distinctL (denoteLiveL .builtin es) && decide (2 ≤ es.length)
+termination_by structural e => e
+def normalL : List TyExpr → Bool
+  | [] => true
+  | e :: es => normal e && normalL es
+end
+
+theorem flatten_id : ∀ xs : List Ann, xs.all (fun a => !isTypingUnion a) = true → flattenUnion xs = xs
+  | [], _ => rfl
+  | x :: xs, h => by
+    simp at h
+    have ih := flatten_id xs (by simpa using h.2)
+    cases x with
+    | typing o ys => cases o <;> simp [isTypingUnion] at h <;> simp [flattenUnion, ih]
+    | _ => simp [flattenUnion, ih]
+
+theorem dedup_id : ∀ xs : List Ann, distinctL xs = true → dedupAnn xs = xs
+  | [], _ => rfl
+  | x :: r, h => by
+    simp [distinctL] at h
+    simp only [dedupAnn, dedup_id r h.2]
+    congr 1
+    apply List.filter_eq_self.mpr
+    intro y hy
+    simpa using h.1 y hy
+
+theorem mkTU_id (xs : List Ann) (hf : xs.all (fun a => !isTypingUnion a) = true) (hd : distinctL xs = true)
+    (hl : 2 ≤ xs.length) : mkTypingUnion xs = .typing .union xs := by
+  simp only [mkTypingUnion, flatten_id xs hf, dedup_id xs hd]
+  match xs, hl with
+  | _ :: _ :: _, _ => rfl
+
+theorem distinct_snoc : ∀ (xs : List Ann) (z : Ann), distinctL xs = true → (∀ y ∈ xs, annEq y z = false) →
+    distinctL (xs ++ [z]) = true
+  | [], _, _, _ => by simp [distinctL]
+  | x :: r, z, h, hz => by
+    simp [distinctL] at h
+    have ih := distinct_snoc r z h.2 (fun y hy => hz y (by simp [hy]))
+    simp [distinctL, ih]
+    refine ⟨?_, hz x (by simp)⟩
+    intro y hy; exact h.1 y hy
+
+theorem annEq_none (l : Live) : ∀ e : TyExpr, annEq (denoteLive l e) (.cls .none) = false
+  | .atom a => by cases a <;> simp [denoteLive, atomCls, annEq]
+  | .dc _ => by simp [denoteLive, annEq]
+  | .list _ => by cases l <;> simp [denoteLive, mkList, annEq]
+  | .tuple _ => by cases l <;> simp [denoteLive, mkTuple, annEq]
+  | .vtuple _ => by cases l <;> simp [denoteLive, mkTuple, annEq]
+  | .union _ => by cases l <;> simp [denoteLive, mkUnion, annEq]
+  | .opt e => by cases e <;> cases l <;> simp [denoteLive, mkUnion, annEq]
+
+theorem annEq_none_L (l : Live) : ∀ es : List TyExpr, ∀ y ∈ denoteLiveL l es, annEq y (.cls .none) = false
+  | [], y, hy => by simp [denoteLiveL] at hy
+  | e :: es, y, hy => by
+    simp [denoteLiveL] at hy
+    rcases hy with h | h
+    · rw [h]; exact annEq_none l e
+    · exact annEq_none_L l es y h
+
+theorem notTU (e : TyExpr) (h : isUnionOrOpt e = false) : isTypingUnion (denoteLive .builtin e) = false := by
+  cases e <;> simp [isUnionOrOpt] at h <;> simp [denoteLive, mkList, mkTuple, isTypingUnion]
+
+theorem notTU_members : ∀ es : List TyExpr, robustMembers es = true →
+    (denoteLiveL .builtin es).all (fun a => !isTypingUnion a) = true
+  | [], _ => by simp [denoteLiveL]
+  | e :: es, h => by
+    simp [robustMembers] at h
+    have ih := notTU_members es h.2
+    simp only [denoteLiveL, List.all_cons, notTU e h.1.2, ih]
+    rfl
+
+theorem notTU_atoms : ∀ es : List TyExpr, allAtoms es = true →
+    (denoteLiveL .builtin es).all (fun a => !isTypingUnion a) = true
+  | [], _ => by simp [denoteLiveL]
+  | e :: es, h => by
+    simp [allAtoms] at h
+    have : isUnionOrOpt e = false := by cases e <;> simp [isAtom] at h <;> rfl
+    have ih := notTU_atoms es h.2
+    simp only [denoteLiveL, List.all_cons, notTU e this, ih]
+    rfl
+
+theorem replaceL_append_none : ∀ (xs ys : List Ann), replaceUnionL xs = .ok ys →
+    replaceUnionL (xs ++ [.cls .none]) = .ok (ys ++ [.cls .none])
+  | [], ys, h => by
+    simp [replaceUnionL, pure, Except.pure] at h
+    subst h
+    simp [replaceUnionL, replaceUnion, bind, Except.bind, pure, Except.pure]
+  | x :: xs, ys, h => by
+    simp only [List.cons_append, replaceUnionL, bind, Except.bind] at h ⊢
+    cases hx : replaceUnion x with
+    | error e => simp [hx] at h
+    | ok y =>
+      simp only [hx] at h ⊢
+      cases hxs : replaceUnionL xs with
+      | error e => simp [hxs] at h
+      | ok ys' =>
+        simp only [hxs] at h
+        simp [pure, Except.pure] at h
+        subst h
+        simp [replaceL_append_none xs ys' hxs, pure, Except.pure]
+
+theorem replace_union_helper (xs xs' : List Ann) (h : replaceUnionL xs = .ok xs')
+    (hf : xs'.all (fun a => !isTypingUnion a) = true) (hd : distinctL xs' = true) (hl : 2 ≤ xs'.length) :
+    replaceUnion (.unionType xs) = .ok (.typing .union xs') := by
+  simp [replaceUnion, h, bind, Except.bind, pure, Except.pure, mkTU_id xs' hf hd hl]
+
+theorem denoteLiveL_length (l : Live) : ∀ es : List TyExpr, (denoteLiveL l es).length = es.length
+  | [] => by simp [denoteLiveL]
+  | e :: es => by simp [denoteLiveL, denoteLiveL_length l es]
+
+/-- `X | None` over a non-union `X` -/
+theorem opt_case (e : TyExpr) (hu : isUnionOrOpt e = false)
+    (ih : replaceUnion (denoteLive .pep604 e) = .ok (denoteLive .builtin e))
+    (d1 : denoteLive .pep604 (.opt e) = .unionType [denoteLive .pep604 e, .cls .none])
+    (d2 : denoteLive .builtin (.opt e) = .typing .union [denoteLive .builtin e, .cls .none]) :
+    replaceUnion (denoteLive .pep604 (.opt e)) = .ok (denoteLive .builtin (.opt e)) := by
+  rw [d1, d2]
+  refine replace_union_helper _ _ ?_ ?_ ?_ (by simp)
+  · simp [replaceUnionL, ih, replaceUnion, bind, Except.bind, pure, Except.pure]
+  · simp only [List.all_cons, List.all_nil, notTU e hu]
+    rfl
+  · simp [distinctL, annEq_none .builtin e]
+
+mutual
+/-- **The recursive replacement produces exactly the builtin-style object**, for nesting of any depth -/
+theorem replace_denote : ∀ e : TyExpr, robust e = true → normal e = true →
+    replaceUnion (denoteLive .pep604 e) = .ok (denoteLive .builtin e)
+  | .atom a, _, _ => by simp [denoteLive, replaceUnion]; rfl
+  | .dc _, h, _ => by simp [robust] at h
+  | .list e, h, n => by
+    simp only [robust] at h
+    simp only [normal] at n
+    simp [denoteLive, mkList, replaceUnion, replaceUnionL, replace_denote e h n, bind, Except.bind, pure, Except.pure]
+  | .tuple es, h, _ => by
+    simp only [robust] at h
+    simp [denoteLive, mkTuple, replaceUnion, replaceL_atoms .pep604 es h, denoteL_atoms .builtin .pep604 es h, bind,
+      Except.bind, pure, Except.pure]
+  | .vtuple e, h, n => by
+    simp only [robust] at h
+    simp only [normal] at n
+    simp [denoteLive, mkTuple, replaceUnion, replaceUnionL, replace_denote e h n, bind, Except.bind, pure, Except.pure]
+  | .union es, h, n => by
+    simp only [robust] at h
+    simp [normal] at n
+    simp only [denoteLive, mkUnion]
+    exact replace_union_helper _ _ (replaceL_denote es h n.1.1) (notTU_members es h) n.1.2
+      (by simpa [denoteLiveL_length] using n.2)
+  | .opt (.union es), h, n => by
+    simp only [robust] at h
+    simp [normal] at n
+    simp only [denoteLive, mkUnion]
+    have r := replaceL_append_none _ _ (replaceL_atoms .pep604 es h)
+    rw [denoteL_atoms .pep604 .builtin es h] at r ⊢
+    refine replace_union_helper _ _ r ?_ ?_ ?_
+    · simpa [isTypingUnion] using notTU_atoms es h
+    · exact distinct_snoc _ _ n.1.2 (annEq_none_L .builtin es)
+    · simp [denoteLiveL_length]; omega
+  | .opt (.atom a), _, _ => opt_case (.atom a) rfl (replace_denote (.atom a) rfl rfl) rfl rfl
+  | .opt (.dc n), h, _ => by simp [robust] at h
+  | .opt (.opt e), h, _ => by simp [robust, isUnionOrOpt] at h
+  | .opt (.list e), h, n =>
+    opt_case (.list e) rfl (replace_denote (.list e) (by simpa [robust, isUnionOrOpt] using h) (by simpa [normal] using n)) rfl rfl
+  | .opt (.tuple es), h, n =>
+    opt_case (.tuple es) rfl (replace_denote (.tuple es) (by simpa [robust, isUnionOrOpt] using h) (by simpa [normal] using n)) rfl rfl
+  | .opt (.vtuple e), h, n =>
+    opt_case (.vtuple e) rfl (replace_denote (.vtuple e) (by simpa [robust, isUnionOrOpt] using h) (by simpa [normal] using n)) rfl rfl
+theorem replaceL_denote : ∀ es : List TyExpr, robustMembers es = true → normalL es = true →
+    replaceUnionL (denoteLiveL .pep604 es) = .ok (denoteLiveL .builtin es)
+  | [], _, _ => by simp [denoteLiveL, replaceUnionL]; rfl
+  | e :: es, h, n => by
+    simp [robustMembers] at h
+    simp [normalL] at n
+    simp [denoteLiveL, replaceUnionL, replace_denote e h.1.1 n.1, replaceL_denote es h.2 n.2, bind, Except.bind, pure,
+      Except.pure]
+end
 
 /-! ### the property -/
 
-mutual
-/-- well-formed (normalised) type expressions: no union directly inside a union, no optional of an optional — the
-    spellings CPython itself would flatten; no dataclass inside a container -/
-def wf : TyExpr → Bool
-  | .atom _ => true
-  | .dc _ => true
-  | .list e => wf e && !isDc e
-  | .tuple es => wfL es
-  | .vtuple e => wf e && !isDc e
-  | .opt (.union es) => wfMembers es
-  | .opt e => wf e && !isUnionOrOpt e && !isDc e
-  | .union es => wfMembers es
-termination_by structural e => e
-def wfL : List TyExpr → Bool
-  | [] => true
-  | e :: es => wf e && !isDc e && wfL es
-def wfMembers : List TyExpr → Bool
-  | [] => true
-  | e :: es => wf e && !isUnionOrOpt e && !isDc e && wfMembers es
-def isDc : TyExpr → Bool
-  | .dc _ => true
-  | _ => false
-end
+/-- postponed text resolves to a live rendering of the same expression: unchanged when its value is not a top-level
+    `X | Y`, and to the builtin-style object (by the recursive replacement) when it is -/
+theorem resolve_postponed (ev : Str → EvOut) (l : Live) (e : TyExpr) (hg : InCliGrammar e = true)
+    (hn : normal e = true) (hev : ev (render l e) = .ok (denoteLive l e)) :
+    ∃ l', resolve ev (denote (.postponed l) e) = .ok (denoteLive l' e) := by
+  by_cases hu : isUnionOrOpt e = true
+  · cases l with
+    | typing => exact ⟨.typing, resolve_postponed_plain ev .typing e hev (Or.inl (by decide))⟩
+    | builtin => exact ⟨.builtin, resolve_postponed_plain ev .builtin e hev (Or.inl (by decide))⟩
+    | pep604 =>
+      have hr : robust e = true := by
+        cases e <;> simp [isUnionOrOpt] at hu <;> simp [InCliGrammar] at hg <;> exact hg.1
+      obtain ⟨ys, e1⟩ := denote_unionish .pep604 e hu
+      have r := replace_denote e hr hn
+      refine ⟨.builtin, ?_⟩
+      simp only [denote, resolve, hev]
+      rw [e1] at r ⊢
+      simp only [mkUnion] at r ⊢
+      simp [r]
+  · exact ⟨l, resolve_postponed_plain ev l e hev (Or.inr (by simpa using hu))⟩
 
-/-- **The full statement** (kept visible; refuted below): however a well-formed field type is written, the field gets
-    the same options. -/
-def FullStatement : Prop :=
-  ∀ (ev : Str → EvOut) (e : TyExpr) (s₁ s₂ : Style) (d : Dflt), wf e = true → EvalOk ev s₁ e → EvalOk ev s₂ e →
-    kindOf (resolve ev (denote s₁ e)) d = kindOf (resolve ev (denote s₂ e)) d
+theorem resolve_any (ev : Str → EvOut) (s : Style) (e : TyExpr) (hg : InCliGrammar e = true) (hn : normal e = true)
+    (hev : EvalOk ev s e) : ∃ l, resolve ev (denote s e) = .ok (denoteLive l e) := by
+  match s, hev with
+  | .live l, _ => exact ⟨l, resolve_live ev l e⟩
+  | .postponed l, hev => exact resolve_postponed ev l e hg hn hev
 
-/-- the renderings for which resolution is proved to return a live object: every non-postponed style, postponed text
-    without a top-level PEP 604 union, and postponed `X | None` over an atom / list / fixed tuple.  The second named
-    exclusion (finding *postponed union over a variadic tuple*) lives here: `tuple[X, ...] | None` is not covered. -/
-def Covered : Style → TyExpr → Bool
-  | .live _, _ => true
-  | .postponed .pep604, e => !isUnionOrOpt e || SimpleOptional e
-  | .postponed _, _ => true
-
-theorem resolve_covered (ev : Str → EvOut) (s : Style) (e : TyExpr) (hc : Covered s e = true) (hev : EvalOk ev s e) :
-    ∃ l, resolve ev (denote s e) = .ok (denoteLive l e) := by
-  match s, hc, hev with
-  | .live l, _, _ => exact ⟨l, resolve_live ev l e⟩
-  | .postponed .typing, _, hev => exact ⟨.typing, resolve_postponed_plain ev .typing e hev (Or.inl (by decide))⟩
-  | .postponed .builtin, _, hev => exact ⟨.builtin, resolve_postponed_plain ev .builtin e hev (Or.inl (by decide))⟩
-  | .postponed .pep604, hc, hev =>
-    simp [Covered] at hc
-    rcases hc with h | h
-    · exact ⟨.pep604, resolve_postponed_plain ev .pep604 e hev (Or.inr h)⟩
-    · exact ⟨.builtin, resolve_postponed_604_optional ev e h hev⟩
-
-/-- **Style invariance (partial).**  For every field type of the command-line grammar (`InCliGrammar`: the named
-    exclusion `ListItemsAtomic` is finding D18) and every pair of covered renderings (`Covered`: the exclusion is the
-    postponed-variadic-tuple finding), under the evaluator assumption, the field gets the same argparse options:
-    same branch of `get_arg_options`, same `required`, `nargs` and `type=` callable. -/
-theorem c17_style_invariant_partial (ev : Str → EvOut) (e : TyExpr) (s₁ s₂ : Style) (d : Dflt)
-    (hg : InCliGrammar e = true) (c₁ : Covered s₁ e = true) (c₂ : Covered s₂ e = true)
-    (h₁ : EvalOk ev s₁ e) (h₂ : EvalOk ev s₂ e) :
+/-- **Style invariance.**  For every field type of the command-line grammar in CPython's normal form, every pair of
+    renderings — `typing` generics, builtin generics, PEP 604 unions, postponed text of any of these — gives the field the
+    same argparse options (same branch of `get_arg_options`, same `required`, `nargs` and `type=` callable), under the
+    assumption that CPython evaluates the postponed text to the object it denotes.  No rendering is excluded. -/
+theorem c17_style_invariant (ev : Str → EvOut) (e : TyExpr) (s₁ s₂ : Style) (d : Dflt)
+    (hg : InCliGrammar e = true) (hn : normal e = true) (h₁ : EvalOk ev s₁ e) (h₂ : EvalOk ev s₂ e) :
     kindOf (resolve ev (denote s₁ e)) d = kindOf (resolve ev (denote s₂ e)) d := by
-  obtain ⟨l₁, r₁⟩ := resolve_covered ev s₁ e c₁ h₁
-  obtain ⟨l₂, r₂⟩ := resolve_covered ev s₂ e c₂ h₂
+  obtain ⟨l₁, r₁⟩ := resolve_any ev s₁ e hg hn h₁
+  obtain ⟨l₂, r₂⟩ := resolve_any ev s₂ e hg hn h₂
   rw [r₁, r₂]
   simp only [kindOf]
   rw [c17_live_invariant l₁ l₂ d e hg]
 
-/-! non-vacuity: a deep type of the grammar, all five renderings covered, evaluator assumption satisfiable -/
+/-! non-vacuity: a deep type of the grammar; the evaluator assumption is satisfiable for every style -/
 def exTy : TyExpr :=
   .union [.atom .int, .list (.vtuple (.union [.atom .str, .list (.atom (.enum "Color".toList))])), .tuple [.atom .bool, .atom .path]]
 def exEv (e : TyExpr) : Str → EvOut := fun t =>
-  if t = render .typing e then .ok (denoteLive .typing e)
-  else if t = render .pep604 e then .ok (denoteLive .pep604 e)
+  if t = render .pep604 e then .ok (denoteLive .pep604 e)
+  else if t = render .typing e then .ok (denoteLive .typing e)
   else if t = render .builtin e then .ok (denoteLive .builtin e) else .otherError
-example : InCliGrammar exTy = true := by decide
-example : wf exTy = true := by decide
-example : Covered (.postponed .typing) exTy = true ∧ Covered (.live .pep604) exTy = true := by decide
-example : EvalOk (exEv exTy) (.postponed .typing) exTy := by simp [EvalOk, exEv]
-example : InCliGrammar (.opt (.list (.atom .int))) = true ∧ Covered (.postponed .pep604) (.opt (.list (.atom .int))) = true := by
-  decide
-example : EvalOk (fun t => if t = render .pep604 (.opt (.list (.atom .int))) then
-      .ok (denoteLive .pep604 (.opt (.list (.atom .int)))) else .otherError)
-    (.postponed .pep604) (.opt (.list (.atom .int))) := by
-  simp [EvalOk]
+example : InCliGrammar exTy = true ∧ normal exTy = true := by decide
+example : EvalOk (exEv exTy) (.postponed .pep604) exTy := by simp [EvalOk, exEv]
+example : InCliGrammar (.opt (.list (.union [.atom .int, .atom .str]))) = true ∧
+    normal (.opt (.list (.union [.atom .int, .atom .str]))) = true := by decide
 
-/-! ### witnesses: the full statement does not hold for the code as it is -/
+/-! ### regression examples for the two repaired defects -/
 
 def d18Ty : TyExpr := .list (.union [.atom .int, .atom .str])
 
-/-- **D18.** `List[Union[int, str]]` hands argparse a (callable) typing alias, `list[int | str]` a `types.UnionType`
-    that is not callable: `add_argument` raises `ValueError`. -/
-theorem c17_d18_witness :
-    notCallable (kind (denoteLive .typing d18Ty) .value).conv = false ∧
-    notCallable (kind (denoteLive .pep604 d18Ty) .value).conv = true := by
-  decide
-
-/-- the same for the postponed text `list[int | str]`: only a *top-level* union is normalised -/
-theorem c17_d18_postponed_witness :
-    (match resolve (exEv d18Ty) (denote (.postponed .pep604) d18Ty) with
+/-- (repaired, b180b4e) `list[int | str]` used to hand argparse the un-callable `types.UnionType`; all spellings now
+    get the try-in-order parser of the union -/
+example : InCliGrammar d18Ty = true ∧ normal d18Ty = true := by decide
+example : notCallable (kind (denoteLive .typing d18Ty) .value).conv = false ∧
+    notCallable (kind (denoteLive .pep604 d18Ty) .value).conv = false := by decide
+example : (match resolve (exEv d18Ty) (denote (.postponed .pep604) d18Ty) with
      | .ok a => notCallable (kind a .value).conv
-     | .raise _ => false) = true := by
-  decide
+     | .raise _ => true) = false := by decide
 
 def vtTy : TyExpr := .opt (.vtuple (.atom .int))
 
-/-- **Postponed union over a variadic tuple.** `tuple[int, ...] | None` under postponed evaluation raises
-    `NotImplementedError` (the recursive replacement rejects `...`), `Optional[Tuple[int, ...]]` resolves. -/
-theorem c17_vtuple_witness :
-    (match resolve (exEv vtTy) (denote (.postponed .pep604) vtTy) with
-     | .raise .notImplemented => true
-     | _ => false) = true ∧
-    (match resolve (exEv vtTy) (denote (.postponed .typing) vtTy) with
+/-- (repaired, 8cc8cdd) postponed `tuple[int, ...] | None` used to raise `NotImplementedError` on the `...` -/
+example : InCliGrammar vtTy = true ∧ normal vtTy = true := by decide
+example : (match resolve (exEv vtTy) (denote (.postponed .pep604) vtTy) with
      | .ok _ => true
-     | _ => false) = true := by
-  decide
+     | .raise _ => false) = true := by decide
 
-theorem c17_full_statement_fails : ¬ FullStatement := by
-  intro h
-  have := h (exEv d18Ty) d18Ty (.live .typing) (.live .pep604) .value (by decide) trivial trivial
-  have h2 : (kindOf (resolve (exEv d18Ty) (denote (.live .typing) d18Ty)) .value).map (fun k => notCallable k.conv)
-      = (kindOf (resolve (exEv d18Ty) (denote (.live .pep604) d18Ty)) .value).map (fun k => notCallable k.conv) := by
-    rw [this]
-  revert h2
+/-- why the grammar excludes lists of containers (`ListItemsNotContainers`): the item annotation itself is the
+    callable, and a `typing` alias (calling it raises `TypeError`) is not a builtin alias (`list(token)`) -/
+theorem c17_grammar_boundary :
+    InCliGrammar (.list (.list (.atom .int))) = false ∧
+    (match (kind (denoteLive .typing (.list (.list (.atom .int)))) .value).conv,
+           (kind (denoteLive .builtin (.list (.list (.atom .int)))) .value).conv with
+     | some (.typingAlias .list), some (.builtinAlias .list) => true
+     | _, _ => false) = true := by
   decide
 
 /-! ### inherited fields -/
